@@ -71,6 +71,12 @@ End ListFacts.
 Section SM.
   Context {V : Type}.
 
+  Lemma slot_at_eq : forall (m : smap V) i, slot_at m i = nth_error (slots m) (N.to_nat i).
+  Proof.
+    intros m i. unfold slot_at. destruct (i <? N.of_nat (length (slots m))) eqn:E; [reflexivity|].
+    apply N.ltb_ge in E. symmetry. apply nth_error_None. lia.
+  Qed.
+
   Definition occ (s : slot V) : bool := match sval s with Some _ => true | None => false end.
 
   (* the free list, starting at index i: a duplicate-free chain of vacant slots ending at the length *)
@@ -155,7 +161,7 @@ Section SM.
   (* ---- insert ---- *)
   Lemma insert_wf : forall (m : smap V) v, wf m -> wf (fst (sm_insert m v)).
   Proof.
-    intros m v [Hpar [l Hch] Hlen]. unfold sm_insert, slot_at in *.
+    intros m v [Hpar [l Hch] Hlen]. unfold sm_insert in *; rewrite ?slot_at_eq in *.
     destruct (nth_error (slots m) (N.to_nat (free_head m))) as [s|] eqn:Hs; cbn [fst].
     - destruct (chain_head_some _ _ _ _ Hch Hs) as (l' & -> & Hocc & Hch' & Hni).
       assert (Hlt : (N.to_nat (free_head m) < length (slots m))%nat) by (apply nth_error_Some; congruence).
@@ -185,7 +191,7 @@ Section SM.
 
   Lemma insert_get_same : forall (m : smap V) v, wf m -> sm_get (fst (sm_insert m v)) (snd (sm_insert m v)) = Some v.
   Proof.
-    intros m v [Hpar [l Hch] Hlen]. unfold sm_insert, sm_get, slot_at in *.
+    intros m v [Hpar [l Hch] Hlen]. unfold sm_insert, sm_get in *; rewrite ?slot_at_eq in *.
     destruct (nth_error (slots m) (N.to_nat (free_head m))) as [s|] eqn:Hs; cbn [fst snd kidx kver slots].
     - assert (Hlt : (N.to_nat (free_head m) < length (slots m))%nat) by (apply nth_error_Some; congruence).
       rewrite nth_error_set_nth_eq by assumption. cbn. rewrite N.eqb_refl; reflexivity.
@@ -195,7 +201,7 @@ Section SM.
   Lemma insert_get_other : forall (m : smap V) v k, wf m -> k <> snd (sm_insert m v) ->
     sm_get (fst (sm_insert m v)) k = sm_get m k.
   Proof.
-    intros m v k [Hpar [l Hch] Hlen] Hne. unfold sm_insert, sm_get, slot_at in *.
+    intros m v k [Hpar [l Hch] Hlen] Hne. unfold sm_insert, sm_get in *; rewrite ?slot_at_eq in *.
     destruct (nth_error (slots m) (N.to_nat (free_head m))) as [s|] eqn:Hs; cbn [fst snd kidx kver slots] in *.
     - destruct (chain_head_some _ _ _ _ Hch Hs) as (l' & -> & Hocc & Hch' & Hni).
       assert (Hlt : (N.to_nat (free_head m) < length (slots m))%nat) by (apply nth_error_Some; congruence).
@@ -223,7 +229,7 @@ Section SM.
 
   Lemma insert_fresh : forall (m : smap V) v, wf m -> sm_get m (snd (sm_insert m v)) = None.
   Proof.
-    intros m v [Hpar [l Hch] Hlen]. unfold sm_insert, sm_get, slot_at in *.
+    intros m v [Hpar [l Hch] Hlen]. unfold sm_insert, sm_get in *; rewrite ?slot_at_eq in *.
     destruct (nth_error (slots m) (N.to_nat (free_head m))) as [s|] eqn:Hs; cbn [snd kidx kver].
     - rewrite Hs. destruct (chain_head_some _ _ _ _ Hch Hs) as (l' & -> & Hocc & _).
       unfold occ in Hocc. destruct (sval s); [discriminate|]. destruct (sver s =? N.lor (sver s) 1); reflexivity.
@@ -240,7 +246,7 @@ Section SM.
 
   Lemma insert_new_unbound : forall (m : smap V) v, wf m -> ~ bound m (snd (sm_insert m v)).
   Proof.
-    intros m v [Hpar [l Hch] Hlen]. unfold sm_insert, bound, slot_at in *.
+    intros m v [Hpar [l Hch] Hlen]. unfold sm_insert, bound in *; rewrite ?slot_at_eq in *.
     destruct (nth_error (slots m) (N.to_nat (free_head m))) as [s|] eqn:Hs; cbn [snd kidx kver].
     - rewrite Hs. destruct (chain_head_some _ _ _ _ Hch Hs) as (l' & -> & Hocc & _).
       rewrite <- (Hpar _ _ Hs) in Hocc. rewrite lor1_even by assumption. lia.
@@ -250,7 +256,7 @@ Section SM.
 
   Lemma insert_new_bound : forall (m : smap V) v, bound (fst (sm_insert m v)) (snd (sm_insert m v)).
   Proof.
-    intros m v. unfold sm_insert, bound, slot_at.
+    intros m v. unfold sm_insert, bound; rewrite ?slot_at_eq.
     destruct (nth_error (slots m) (N.to_nat (free_head m))) as [s|] eqn:Hs; cbn [fst snd kidx kver slots].
     - assert (Hlt : (N.to_nat (free_head m) < length (slots m))%nat) by (apply nth_error_Some; congruence).
       rewrite nth_error_set_nth_eq by assumption. cbn; lia.
@@ -259,7 +265,7 @@ Section SM.
 
   Lemma insert_bound_mono : forall (m : smap V) v k, bound m k -> bound (fst (sm_insert m v)) k.
   Proof.
-    intros m v k. unfold sm_insert, bound, slot_at.
+    intros m v k. unfold sm_insert, bound; rewrite ?slot_at_eq.
     destruct (nth_error (slots m) (N.to_nat (kidx k))) as [sk|] eqn:Hk; [|tauto]. intros Hb.
     destruct (nth_error (slots m) (N.to_nat (free_head m))) as [s|] eqn:Hs; cbn [fst slots].
     - assert (Hlt : (N.to_nat (free_head m) < length (slots m))%nat) by (apply nth_error_Some; congruence).
@@ -275,7 +281,7 @@ Section SM.
   Proof.
     intros m k v [Hpar [l Hch] Hlen] Hg. unfold sm_remove. rewrite (get_contains _ _ _ Hg).
     destruct (get_occupied _ _ _ Hg) as (s & Hs & Hv & Hsv). rewrite Hs. cbn [fst].
-    unfold slot_at in Hs.
+    rewrite ?slot_at_eq in Hs.
     assert (Hlt : (N.to_nat (kidx k) < length (slots m))%nat) by (apply nth_error_Some; congruence).
     assert (Hocc : occ s = true) by (unfold occ; rewrite Hsv; reflexivity).
     assert (Hnl : ~ In (N.to_nat (kidx k)) l).
@@ -299,7 +305,7 @@ Section SM.
   Proof.
     intros m k v Hg. unfold sm_remove. rewrite (get_contains _ _ _ Hg).
     destruct (get_occupied _ _ _ Hg) as (s & Hs & Hv & Hsv). rewrite Hs. cbn [fst].
-    unfold sm_get, slot_at in *. cbn [slots].
+    unfold sm_get in *; rewrite ?slot_at_eq in *. cbn [slots].
     assert (Hlt : (N.to_nat (kidx k) < length (slots m))%nat) by (apply nth_error_Some; congruence).
     rewrite nth_error_set_nth_eq by assumption. cbn. destruct (sver s + 1 =? kver k); reflexivity.
   Qed.
@@ -309,7 +315,7 @@ Section SM.
   Proof.
     intros m k k' v Hg Hne. unfold sm_remove. rewrite (get_contains _ _ _ Hg).
     destruct (get_occupied _ _ _ Hg) as (s & Hs & Hv & Hsv). rewrite Hs. cbn [fst].
-    unfold sm_get, slot_at in *. cbn [slots].
+    unfold sm_get in *; rewrite ?slot_at_eq in *. cbn [slots].
     assert (Hlt : (N.to_nat (kidx k) < length (slots m))%nat) by (apply nth_error_Some; congruence).
     destruct (Nat.eq_dec (N.to_nat (kidx k)) (N.to_nat (kidx k'))) as [He|Hn].
     - rewrite <- He, nth_error_set_nth_eq, Hs by assumption. cbn.
@@ -323,7 +329,7 @@ Section SM.
   Proof.
     intros m k v [Hpar _ Hlen] Hg. unfold sm_remove, sm_len. rewrite (get_contains _ _ _ Hg).
     destruct (get_occupied _ _ _ Hg) as (s & Hs & Hv & Hsv). rewrite Hs. cbn [fst num_elems].
-    unfold slot_at in Hs. rewrite Hlen.
+    rewrite ?slot_at_eq in Hs. rewrite Hlen.
     assert (Hocc : occ s = true) by (unfold occ; rewrite Hsv; reflexivity).
     assert (Hpos : (1 <= count_occ_slots (slots m))%nat).
     { pose proof (count_occ_slots_set_nth _ _ _ (mkSlot (sver s + 1) None (free_head m)) Hs) as Hc.
@@ -335,7 +341,7 @@ Section SM.
   Proof.
     intros m k k'. unfold sm_remove, bound.
     destruct (sm_contains m k); [|auto]. destruct (slot_at m (kidx k)) as [s|] eqn:Hs; [|auto]. cbn [fst].
-    unfold slot_at in *. cbn [slots].
+    rewrite ?slot_at_eq in *. cbn [slots].
     assert (Hlt : (N.to_nat (kidx k) < length (slots m))%nat) by (apply nth_error_Some; congruence).
     destruct (Nat.eq_dec (N.to_nat (kidx k)) (N.to_nat (kidx k'))) as [He|Hn].
     - rewrite <- He, nth_error_set_nth_eq, Hs by assumption. cbn. lia.
@@ -347,7 +353,7 @@ Section SM.
   Proof.
     intros m k v v' [Hpar [l Hch] Hlen] Hg. unfold sm_set.
     destruct (get_occupied _ _ _ Hg) as (s & Hs & Hv & Hsv). rewrite Hs, Hv, N.eqb_refl.
-    unfold slot_at in Hs.
+    rewrite ?slot_at_eq in Hs.
     assert (Hlt : (N.to_nat (kidx k) < length (slots m))%nat) by (apply nth_error_Some; congruence).
     assert (Hocc : occ s = true) by (unfold occ; rewrite Hsv; reflexivity).
     assert (Hnl : ~ In (N.to_nat (kidx k)) l).
@@ -366,7 +372,7 @@ Section SM.
   Proof.
     intros m k v v' Hg. unfold sm_set.
     destruct (get_occupied _ _ _ Hg) as (s & Hs & Hv & Hsv). rewrite Hs, Hv, N.eqb_refl.
-    unfold sm_get, slot_at in *. cbn [slots].
+    unfold sm_get in *; rewrite ?slot_at_eq in *. cbn [slots].
     assert (Hlt : (N.to_nat (kidx k) < length (slots m))%nat) by (apply nth_error_Some; congruence).
     rewrite nth_error_set_nth_eq by assumption. cbn. rewrite N.eqb_refl; reflexivity.
   Qed.
@@ -376,7 +382,7 @@ Section SM.
     intros m k k' v' Hne. unfold sm_set.
     destruct (slot_at m (kidx k)) as [s|] eqn:Hs; [|reflexivity].
     destruct (sver s =? kver k) eqn:Hv; [|reflexivity]. apply N.eqb_eq in Hv.
-    unfold sm_get, slot_at in *. cbn [slots].
+    unfold sm_get in *; rewrite ?slot_at_eq in *. cbn [slots].
     assert (Hlt : (N.to_nat (kidx k) < length (slots m))%nat) by (apply nth_error_Some; congruence).
     destruct (Nat.eq_dec (N.to_nat (kidx k)) (N.to_nat (kidx k'))) as [He|Hn].
     - rewrite <- He, nth_error_set_nth_eq, Hs by assumption. cbn.
@@ -396,7 +402,7 @@ Section SM.
     intros m k v' k'. unfold sm_set, bound.
     destruct (slot_at m (kidx k)) as [s|] eqn:Hs; [|auto].
     destruct (sver s =? kver k) eqn:Hv; [|auto].
-    unfold slot_at in *. cbn [slots].
+    rewrite ?slot_at_eq in *. cbn [slots].
     assert (Hlt : (N.to_nat (kidx k) < length (slots m))%nat) by (apply nth_error_Some; congruence).
     destruct (Nat.eq_dec (N.to_nat (kidx k)) (N.to_nat (kidx k'))) as [He|Hn].
     - rewrite <- He, nth_error_set_nth_eq, Hs by assumption. cbn. auto.
@@ -408,5 +414,51 @@ Section SM.
   Proof.
     intros m k v Hg. destruct (get_occupied _ _ _ Hg) as (s & Hs & Hv & _).
     unfold bound. rewrite Hs. lia.
+  Qed.
+  (* ---- a removed key stays stale for ever ---- *)
+  Lemma insert_stale_mono : forall (m : smap V) v k, stale m k = true -> stale (fst (sm_insert m v)) k = true.
+  Proof.
+    intros m v k. unfold sm_insert, stale; rewrite ?slot_at_eq.
+    destruct (nth_error (slots m) (N.to_nat (kidx k))) as [sk|] eqn:Hk; [|discriminate]. intros Hb.
+    destruct (nth_error (slots m) (N.to_nat (free_head m))) as [s|] eqn:Hs; cbn [fst]; rewrite slot_at_eq; cbn [slots].
+    - assert (Hlt : (N.to_nat (free_head m) < length (slots m))%nat) by (apply nth_error_Some; congruence).
+      destruct (Nat.eq_dec (N.to_nat (free_head m)) (N.to_nat (kidx k))) as [He|Hn].
+      + rewrite <- He, nth_error_set_nth_eq by assumption. cbn [sver]. rewrite <- He, Hs in Hk. inversion Hk; subst.
+        apply N.ltb_lt in Hb. apply N.ltb_lt. pose proof (lor1_ge (sver sk)); lia.
+      + rewrite nth_error_set_nth_neq, Hk by assumption. assumption.
+    - rewrite nth_error_app1, Hk; [assumption|]. apply nth_error_Some; congruence.
+  Qed.
+
+  Lemma remove_stale_mono : forall (m : smap V) k k', stale m k' = true -> stale (fst (sm_remove m k)) k' = true.
+  Proof.
+    intros m k k'. unfold sm_remove.
+    destruct (sm_contains m k); [|auto]. destruct (slot_at m (kidx k)) as [s|] eqn:Hs; [|auto]. cbn [fst].
+    unfold stale. rewrite ?slot_at_eq in *. cbn [slots].
+    assert (Hlt : (N.to_nat (kidx k) < length (slots m))%nat) by (apply nth_error_Some; congruence).
+    destruct (Nat.eq_dec (N.to_nat (kidx k)) (N.to_nat (kidx k'))) as [He|Hn].
+    - rewrite <- He, nth_error_set_nth_eq, Hs by assumption. cbn [sver]. intros Hb.
+      apply N.ltb_lt in Hb. apply N.ltb_lt. lia.
+    - rewrite nth_error_set_nth_neq by assumption. auto.
+  Qed.
+
+  Lemma remove_stale_self : forall (m : smap V) k v, sm_get m k = Some v -> stale (fst (sm_remove m k)) k = true.
+  Proof.
+    intros m k v Hg. unfold sm_remove. rewrite (get_contains _ _ _ Hg).
+    destruct (get_occupied _ _ _ Hg) as (s & Hs & Hv & Hsv). rewrite Hs. cbn [fst].
+    unfold stale. rewrite ?slot_at_eq in *. cbn [slots].
+    assert (Hlt : (N.to_nat (kidx k) < length (slots m))%nat) by (apply nth_error_Some; congruence).
+    rewrite nth_error_set_nth_eq by assumption. cbn [sver]. apply N.ltb_lt. lia.
+  Qed.
+
+  Lemma set_stale_mono : forall (m : smap V) k v' k', stale m k' = true -> stale (sm_set m k v') k' = true.
+  Proof.
+    intros m k v' k'. unfold sm_set.
+    destruct (slot_at m (kidx k)) as [s|] eqn:Hs; [|auto].
+    destruct (sver s =? kver k) eqn:Hv; [|auto].
+    unfold stale. rewrite ?slot_at_eq in *. cbn [slots].
+    assert (Hlt : (N.to_nat (kidx k) < length (slots m))%nat) by (apply nth_error_Some; congruence).
+    destruct (Nat.eq_dec (N.to_nat (kidx k)) (N.to_nat (kidx k'))) as [He|Hn].
+    - rewrite <- He, nth_error_set_nth_eq, Hs by assumption. cbn [sver]. auto.
+    - rewrite nth_error_set_nth_neq by assumption. auto.
   Qed.
 End SM.
